@@ -159,7 +159,7 @@ theorem sim_pipe {n : Nat} (hS : SimS n) {K : SCtx} {k : Ctx} {sub : Bool} {s : 
   have hsupx : supProg (subK K.e) false (.cons (.mk false cx) .nil) = true := by
     simp only [supPipeL, subCtx_eq] at hsx
     simp [supProg, supStmt, hsx]
-  have h0 := sim_subrun hS (.cons (.mk false cx) .nil) [] hst hne' rfl hsupx hd hl hx
+  have h0 := sim_subrun hS (.cons (.mk false cx) .nil) [] 0 hst hne' rfl hsupx hd hl hx
   rw [foldStmts_single] at h0
   rw [run_pipe n _ _ s (stop_false_of_exit hx), sem_pipe]
   cases hr : run n (.stmt (.mk false cx)) (subshellOf s []) with
